@@ -32,6 +32,10 @@
 (*                final result has arrived: a child process that lingers after its report   *)
 (*                ("@linger": the target left a non-daemon thread behind) counts as dead,   *)
 (*                restart() replaces the object and abandons the running process            *)
+(*   IterExact    FALSE: results_iter(maxitems=1) reads one result too many and drops it      *)
+(*   OwnRunScn    scenario: the worker is a subclass overriding run(), built with target=None, *)
+(*                run=True; RestartKeepsRun FALSE: restart() forgets run=True, so such a      *)
+(*                worker comes back un-started (not alive, no child)                          *)
 (*   ClosedGuard  FALSE: enqueue() of a process worker tests only is_alive() and relies on  *)
 (*                the send failing: on a closed but still running worker it raises OSError   *)
 (*                ("handle is closed") instead of WorkerClosedError                         *)
@@ -64,7 +68,7 @@ EXTENDS Naturals, Sequences, FiniteSets, TLC, PersistentProps
 CONSTANTS Kinds, DTypes, DArgsSet, DKwSet, Shapes, Ops, MaxSteps, MaxEnq, MaxRestarts,
           Settle, Hist, AllowBlock, TupleFix, CounterFirst, FreshPipe, ResetClosed, BlockAfterClose,
           BusyTicks, SlowTicks, WaitT, TermT, WaitTruthful, TermOwnTimeout, ClosedGuard,
-          EnqChecksAlive, WaitSwallowsBadResult, AliveAsksServer
+          EnqChecksAlive, WaitSwallowsBadResult, AliveAsksServer, IterExact, OwnRunScn, RestartKeepsRun
 
 VARIABLES kind, dtype, dargs, dkw,               \* scenario
           ppc, pend, closed, pdead, late,        \* parent: pc, call in progress, _closed, _dead, "after close/death"
@@ -101,7 +105,7 @@ Target(a, kw) == IF IsSpecial(a) THEN [t |-> SpecTag(a[1]), a |-> <<>>, kw |-> <
 KwSeq(d, x) == SelectSeq(d, LAMBDA p : p[1] \notin Keys(x)) \o x
 
 NoPend == [op |-> "none", k |-> 0, nread |-> 0, late |-> "F", pre |-> <<"F", "idle", 0>>]
-FreshInc(id) == [enq |-> <<>>, raw |-> <<>>, late |-> <<>>, calls |-> <<>>, bempty |-> <<>>, hung |-> <<>>, first |-> "none", alive0 |-> "T",
+FreshInc(id) == [enq |-> <<>>, raw |-> <<>>, late |-> <<>>, calls |-> <<>>, bempty |-> <<>>, hung |-> <<>>, got |-> <<>>, first |-> "none", alive0 |-> "T",
                  waited |-> "none", result |-> [k |-> "na", n |-> 0], fault |-> "none", id |-> id,
                  name |-> "nm", userid |-> "u", endk |-> "final", oldos |-> "na", rraised |-> <<>>]
 
@@ -184,12 +188,14 @@ ApiAlive == /\ "alive" \in Ops /\ CanCall
 
 \* pop one message from the results channel into the observation; out is "val" or "Empty" (end marker)
 PopOut == IF Head(resQ).f = "T" THEN "val" ELSE "End"
+GotAdd(g, m) == IF m.f = "T" THEN Append(g, m.v) ELSE g
+Vals(s) == [k \in 1..Len(Valid(s)) |-> Valid(s)[k].v]
 
 ApiNextNB == /\ "nextnb" \in Ops /\ CanCall
              /\ IF resQ = <<>>
                 THEN /\ Log("nextnb", "Empty") /\ UNCHANGED <<resQ, I>>
                 ELSE /\ Log("nextnb", PopOut)
-                     /\ resQ' = Tail(resQ) /\ I' = [I EXCEPT !.raw = Append(@, Head(resQ))]
+                     /\ resQ' = Tail(resQ) /\ I' = [I EXCEPT !.raw = Append(@, Head(resQ)), !.got = GotAdd(@, Head(resQ))]
              /\ SeeDeath
              /\ UNCHANGED <<scnv, ppc, pend, closed, late, childv, argsQ, done, nenq, nrst>>
 
@@ -210,20 +216,27 @@ ApiNextBClosed == /\ ~BlockAfterClose /\ "nextb" \in Ops /\ CanCall /\ closed
                           /\ I' = [I EXCEPT !.bempty = Append(@, [nread |-> NRead, nenq |-> Len(I.enq)])]
                      ELSE /\ Log("nextb", PopOut)
                           /\ resQ' = Tail(resQ)
-                          /\ I' = [I EXCEPT !.raw = Append(@, Head(resQ)),
+                          /\ I' = [I EXCEPT !.raw = Append(@, Head(resQ)), !.got = GotAdd(@, Head(resQ)),
                                             !.bempty = (IF Head(resQ).f = "F" THEN Append(@, [nread |-> NRead, nenq |-> Len(I.enq)]) ELSE @)]
                   /\ SeeDeath
                   /\ UNCHANGED <<scnv, ppc, pend, closed, late, childv, argsQ, done, nenq, nrst>>
-ApiNextB == /\ "nextb" \in Ops /\ CanCall /\ Produces /\ (BlockAfterClose \/ ~closed)
-            /\ ppc' = "next" /\ SeeDeath /\ pend' = [pend EXCEPT !.pre = Pre]
+\* a blocking read of one result: next_result() or list(results_iter(maxitems=1))
+ApiNextBOp(op) == /\ op \in Ops /\ CanCall /\ Produces /\ (BlockAfterClose \/ ~closed)
+            /\ ppc' = "next" /\ SeeDeath /\ pend' = [pend EXCEPT !.pre = Pre, !.op = op]
             /\ UNCHANGED <<scnv, closed, late, childv, argsQ, resQ, I, done, steps, nenq, nrst, h>>
+ApiNextB == ApiNextBOp("nextb") \/ ApiNextBOp("iter1")
 NextEnd == /\ ppc = "next" /\ (resQ # <<>> \/ cpc = "dead")
            /\ IF resQ = <<>>
-              THEN /\ LogP("nextb", "Empty", pend.pre) /\ UNCHANGED resQ
+              THEN /\ LogP(pend.op, "Empty", pend.pre) /\ UNCHANGED resQ
                    /\ I' = [I EXCEPT !.bempty = Append(@, [nread |-> NRead, nenq |-> Len(I.enq)])]
-              ELSE /\ LogP("nextb", PopOut, pend.pre)
+              ELSE IF ~IterExact /\ pend.op = "iter1" /\ Len(resQ) >= 2 /\ Head(resQ).f = "T"
+              THEN \* the wrong variant: the next result is read as well and thrown away
+                   /\ LogP(pend.op, "val", pend.pre)
+                   /\ resQ' = Tail(Tail(resQ))
+                   /\ I' = [I EXCEPT !.raw = Append(Append(@, resQ[1]), resQ[2]), !.got = Append(@, resQ[1].v)]
+              ELSE /\ LogP(pend.op, PopOut, pend.pre)
                    /\ resQ' = Tail(resQ)
-                   /\ I' = [I EXCEPT !.raw = Append(@, Head(resQ)),
+                   /\ I' = [I EXCEPT !.raw = Append(@, Head(resQ)), !.got = GotAdd(@, Head(resQ)),
                                      !.bempty = (IF Head(resQ).f = "F" THEN Append(@, [nread |-> NRead, nenq |-> Len(I.enq)]) ELSE @)]
            /\ ppc' = "ready"
            /\ UNCHANGED <<scnv, pend, closed, pdead, late, childv, argsQ, done, nenq, nrst>>
@@ -248,6 +261,7 @@ CallEnd == /\ ppc = "call" /\ (resQ # <<>> \/ cpc = "dead")
                   out == IF got THEN PopOut ELSE "Empty"
                   v == IF got /\ Head(resQ).f = "T" THEN Head(resQ).v ELSE Nil
               IN /\ I' = [I EXCEPT !.raw = (IF got THEN Append(@, Head(resQ)) ELSE @),
+                                   !.got = (IF got THEN GotAdd(@, Head(resQ)) ELSE @),
                                    !.calls = Append(@, [k |-> pend.k, out |-> out, v |-> v, nread |-> pend.nread, late |-> pend.late])]
                  /\ resQ' = (IF got THEN Tail(resQ) ELSE resQ)
                  /\ LogP("call", out, pend.pre)
@@ -300,10 +314,10 @@ ApiRelease == /\ CanCall /\ cpc = "stuck"
 \* __dict__.clear(); __init__(..., results_pipe=..., _is_restart=True)
 ReinitO(op, pre, os) ==
    /\ done' = Append(done, [I EXCEPT !.endk = "restarted", !.oldos = os])
-   /\ I' = FreshInc(I.id + 1)
+   /\ I' = (IF OwnRunScn /\ ~RestartKeepsRun THEN [FreshInc(I.id + 1) EXCEPT !.alive0 = "F"] ELSE FreshInc(I.id + 1))
    /\ closed' = (IF ResetClosed THEN FALSE ELSE closed)
    /\ pdead' = FALSE /\ late' = FALSE
-   /\ cpc' = "recv" /\ cur' = NoItem /\ val' = Nil /\ counter' = 0 /\ cres' = "none" /\ apend' = FALSE
+   /\ cpc' = (IF OwnRunScn /\ ~RestartKeepsRun THEN "dead" ELSE "recv") /\ cur' = NoItem /\ val' = Nil /\ counter' = 0 /\ cres' = "none" /\ apend' = FALSE
    /\ argsQ' = <<>>
    /\ resQ' = (IF FreshPipe THEN <<>> ELSE resQ)
    /\ ppc' = "ready" /\ nrst' = nrst + 1
@@ -347,7 +361,7 @@ Finish == /\ ppc = "ready" /\ (Settle => Quiet) /\ ~HasStuck /\ ~Timed
 FinEnd == /\ ppc = "fin" /\ cpc = "dead"
           /\ I' = [I EXCEPT !.waited = "T",
                             !.result = (IF cres = "v" THEN [k |-> "val", n |-> counter] ELSE [k |-> "none", n |-> 0]),
-                            !.raw = @ \o resQ]
+                            !.raw = @ \o resQ, !.got = @ \o Vals(resQ)]
           /\ resQ' = <<>> /\ pdead' = TRUE /\ ppc' = "done"
           /\ UNCHANGED <<scnv, pend, closed, late, childv, argsQ, done, steps, nenq, nrst, h>>
 
